@@ -273,6 +273,15 @@ func Verif_C15_NamerRewrite(sSelf, sp, sq int) {
 		n2++
 	}
 	verifsym.Assert(n2 == want, "rendering the same generic reference again registered another package")
+	// a generic type of the file's OWN package instantiated with a foreign argument:
+	// unqualified itself, but its argument is rewritten and imported like any other
+	tr2 := NewDefaultImportTracker()
+	nm2 := NewRawNamer(self, tr2)
+	own := nm2.Name(gengotypes.Ref(self, "N["+q+".X,"+self+".Y]"))
+	verifsym.Assert(own == "N["+tr2.LocalNameOf(q)+".X,Y]", "type arguments of an own-package generic are not rewritten to import names")
+	_, imported := tr2.Imports()[q]
+	verifsym.Assert(imported, "a package referenced only as a type argument of an own-package generic is not imported")
+	verifsym.Assert(tr2.LocalNameOf(q) != "", "a package referenced only as a type argument has no local name")
 	verifsym.Observe("out", out)
 	verifsym.Reach("end")
 }
